@@ -11,6 +11,28 @@ import (
 // per-input order kept) and, without cancel, closes after — and only after — every input has
 // closed and been drained; any number of inputs including none.
 
+// c12Online: nothing is lost also means that Join keeps taking from every input: while the consumer
+// drains the output (and nothing is cancelled) no send on any input may still be waiting at a
+// quiescent point.
+func c12Online(w *world) {
+	if w.cancelled || len(w.outs) == 0 {
+		return
+	}
+	o := w.outs[0]
+	o.mu.Lock()
+	draining := o.pending == "drain"
+	o.mu.Unlock()
+	if !draining || w.c.OneProducer {
+		return
+	}
+	for _, p := range w.ins {
+		s := p.snap()
+		if len(s.sent)+len(s.panicked) < len(s.issued) && s.pending == "send" {
+			w.bad("result", "the consumer is draining the output, yet a send on %s is still waiting at a quiescent point (issued %d, completed %d): Join is not taking from that input", p.name, len(s.issued), len(s.sent))
+		}
+	}
+}
+
 func genC12(t *testing.T) {
 	n := 0
 	run := func(c *caseT) {
@@ -19,7 +41,39 @@ func genC12(t *testing.T) {
 			return
 		}
 		c.Site, c.Stage, c.End = "Join", "Join", "complete"
-		runCase(t, c, hooks{})
+		runCase(t, c, hooks{online: c12Online})
+	}
+	// wide joins, live inputs: one producer goroutine serves all inputs in a given order (last input first,
+	// first input first, round robin) and closes them only at the end
+	for _, ni := range []int{2, 3, 6, 8, 9, 12, 17} {
+		for _, cp := range []int{0, 1} {
+			for order := 0; order < 3; order++ {
+				c := &caseT{Cap: cp, OneProducer: true, Comment: "wide join, single producer"}
+				var sends, closes []string
+				for i := 0; i < ni; i++ {
+					c.Inputs = append(c.Inputs, ids(1000*(i+1), 2))
+					closes = append(closes, fmt.Sprintf("C%d", i))
+				}
+				for k := 0; k < 2; k++ {
+					for i := 0; i < ni; i++ {
+						j := i
+						if order == 0 {
+							j = ni - 1 - i
+						}
+						sends = append(sends, fmt.Sprintf("S%d", j))
+					}
+				}
+				if order == 2 {
+					sends = nil
+					for i := 0; i < ni; i++ {
+						sends = append(sends, fmt.Sprintf("S%d", i), fmt.Sprintf("S%d", i))
+					}
+				}
+				c.Script = append([]string{"D0"}, sends...)
+				c.Script = append(c.Script, closes...)
+				run(c)
+			}
+		}
 	}
 	// tiny: all interleavings of per-input producer programs and the consumer
 	for _, cp := range []int{0, 1, 2} {
@@ -50,7 +104,10 @@ func genC12(t *testing.T) {
 	for i := 0; i < nr; i++ {
 		r := common.RngN("c12", uint64(i))
 		ni := r.IntN(6)
-		c := &caseT{Cap: r.IntN(5), Inputs: [][]int{}}
+		if r.IntN(4) == 0 {
+			ni = 6 + r.IntN(12) // wide joins
+		}
+		c := &caseT{Cap: r.IntN(5), Inputs: [][]int{}, OneProducer: r.IntN(4) == 0}
 		var seqs [][]string
 		total := 0
 		for k := 0; k < ni; k++ {
@@ -66,7 +123,11 @@ func genC12(t *testing.T) {
 			}
 			seqs = append(seqs, p)
 		}
-		seqs = append(seqs, rep("R0", r.IntN(total+2)))
+		if r.IntN(3) == 0 {
+			seqs = append(seqs, []string{"D0"})
+		} else {
+			seqs = append(seqs, rep("R0", r.IntN(total+2)))
+		}
 		c.Script = randInterleave(r, seqs, []int{0, 0, 30, 80}[r.IntN(4)])
 		run(c)
 	}
